@@ -85,6 +85,18 @@ func (e *CoreExtension) GetFilters() map[string]FilterFunc {
 // and the filters agree (length, first, last, slice, sort, join, ... failed on it)
 func onCollection(filter FilterFunc) FilterFunc {
 	return func(value interface{}, args ...interface{}) (interface{}, error) {
+		// (the same for arguments: xs|merge(p) ignored a *[]T)
+		for i, arg := range args {
+			if reflect.ValueOf(arg).Kind() == reflect.Ptr {
+				shown := make([]interface{}, len(args))
+				copy(shown, args)
+				for j := i; j < len(shown); j++ {
+					shown[j] = pointedCollection(shown[j])
+				}
+				args = shown
+				break
+			}
+		}
 		return filter(pointedCollection(value), args...)
 	}
 }
